@@ -16,4 +16,20 @@ LEVELS = {
         'technique': TECH + '; bounded stand-in: exhaustive strings up to length 4/5 over an 12-letter alphabet, all positions',
         'clauses': 'P: Scanner.*, css scan/literal/comment/whitespace, ...; B: html-exhaustive, css-exhaustive.',
     },
+    'C18': {
+        'category': 'proof',
+        'text': 'Both tokenizers are under contract function by function (24 functions of the real source): every consumer '
+                'either returns None without consuming or a fresh token spanning exactly what it consumed; the main loops '
+                'carry the tiling invariant (spans defined, non-empty, contiguous, first at 0, last at the cursor); '
+                'merge_tokens replaces a suffix by one token with the same span; the only escaping exception is the scanner '
+                'error with 0 <= pos <= len(input); int()/float() conversions are safe by the digit / number-shape '
+                'postconditions. All verification conditions are discharged for every input and every iteration. An '
+                'exhaustive small-scope run of the real tokenizers cross-checks the proof and is not counted as proved.',
+        'design_ref': 'DESIGN.md section 7 (C18)',
+        'note': 'Trusted: pyvc encoding of the Python subset; axioms A-decimal, A-int, A-floatstr about CPython string '
+                'conversions; the contract of css parse_color (leaf string builder: exception freedom assumed, checked at run '
+                'time by the bounded clause and completely for 1-3 digit colours by C05); z3.',
+        'technique': TECH + '; cross-check: exhaustive strings up to length 4 over two 19-letter alphabets',
+        'clauses': 'P: all of abbreviation/tokenizer and css_abbreviation/tokenizer except parse_color (trusted).',
+    },
 }
